@@ -8,6 +8,7 @@
  * division -- stated, not proved exact); post.cell_bits says stream bit j is bit (45 - j/2) of U (j even) or
  * of V (j odd).  -- C18 */
 /*@ capture ulon:unsigned long long ulat:unsigned long long cap_lon=lon@ulon:double cap_lat=lat@ulon:double */
+/*@ uses Math_AngNormalize */
 /*@ ghost */
 #define GH_LONF (g_AngNormalize_ret == 180.0 ? -180.0 : g_AngNormalize_ret)
 #define GH_SHIFT 35184372088832.0   /* 2^45 */
